@@ -307,6 +307,30 @@ pub fn mutate(src: &mut Src, toks: &mut Vec<Tok>) -> &'static str {
         5 => {
             // key / hash length change
             if let Some(d) = toks[i].ins.data.clone() {
+                if d.len() == 65 && d[0] == 4 {
+                    // hybrid encoding of the same point (prefix 6 / 7 by the parity of y) or a
+                    // wrong-parity / junk prefix: not a canonical key push
+                    let mut raw = vec![65u8];
+                    let mut d2 = d.clone();
+                    d2[0] = match src.below(3) {
+                        0 => 6 + (d[64] & 1),
+                        1 => 7 - (d[64] & 1),
+                        _ => 5,
+                    };
+                    raw.extend_from_slice(&d2);
+                    toks[i].raw = raw;
+                    return "hybrid-key";
+                }
+                if d.len() == 33 && src.chance(1, 3) {
+                    // compressed key with the prefix of the other parity is another (valid) key:
+                    // fine; prefix 4/5/6 on 33 bytes is not a key
+                    let mut raw = vec![33u8];
+                    let mut d2 = d.clone();
+                    d2[0] = *src.pick(&[4u8, 5, 6, 0]);
+                    raw.extend_from_slice(&d2);
+                    toks[i].raw = raw;
+                    return "bad-key-prefix";
+                }
                 if d.len() == 33 {
                     let mut raw = vec![32u8];
                     raw.extend_from_slice(&d[1..]);
